@@ -1,5 +1,6 @@
 let p_len = p_opt p_q
 let p_ext = function ENaN -> ps "[0]" | EInf -> ps "[1]" | EFin q -> ps "[2,"; p_q q; ps "]"
+let next_dval () = match next_int () with 0 -> VNaN | 1 -> VInf | _ -> VFin (next_q ())
 let next_tbl () = next_list (fun () -> let a = next_q () in let b = next_q () in (a, b))
 let dispatch = function
   | "floyd" -> let tr = next_nat () in let a = next_mat next_q in let tbl = next_tbl () in
@@ -13,6 +14,10 @@ let dispatch = function
   | "dwei" -> let a = next_mat next_q in p_opt (p_pair (p_mat p_len) (p_mat p_nat)) (run_dwei a)
   | "charpath" -> let d = next_mat (fun () -> next_opt next_q) in
       let a = next_bool () in let b = next_bool () in p_pair p_ext p_ext (run_charpath d a b)
+  | "charpathx" -> let d = next_mat next_dval in
+      let a = next_bool () in let b = next_bool () in p_pair p_ext p_ext (run_charpath_x d a b)
+  | "effbinx" -> let a = next_mat next_z in p_opt p_ext (run_effbin_x a)
+  | "effweix" -> let a = next_mat next_q in p_opt p_ext (run_effwei_x a)
   | "effbin" -> let a = next_mat next_z in p_opt p_ext (run_effbin a)
   | "effwei" -> let a = next_mat next_q in p_opt p_ext (run_effwei a)
   | "rout" -> let tr = next_nat () in let a = next_mat next_q in let tbl = next_tbl () in
